@@ -41,48 +41,9 @@ func runC15(c *Ctx) {
 		return
 	}
 	isSet := func(ins ssa.Instruction) bool { return p.isCallTo(ins, setSynced) }
-	isRb := func(ins ssa.Instruction) bool { return p.isCallTo(ins, rollback) }
+	_ = rollback
 
-	// ---------- R1 coupled rollback ----------
-	nCoupled := 0
-	for _, fn := range p.FuncsIn("wallet") {
-		var sets, rbs []*ssa.Call
-		for _, ci := range callsOf(fn) {
-			if call, ok := ci.(*ssa.Call); ok {
-				if isSet(call) {
-					sets = append(sets, call)
-				}
-				if isRb(call) {
-					rbs = append(rbs, call)
-				}
-			}
-		}
-		if len(rbs) == 0 {
-			continue
-		}
-		name := fnName(fn)
-		c.Check("C15-R1", "rollback-coupled-with-stamp:"+name, rbs[0].Pos(), len(sets) > 0,
-			"the transaction store is rolled back in a function that does not move the address manager's synced-to stamp in the same database transaction")
-		if len(sets) == 0 {
-			continue
-		}
-		nCoupled++
-		for _, s := range sets {
-			bad := p.mustPassToSuccess(fn, s, isRb, nil)
-			c.Check("C15-R1", "stamp-write-followed-by-rollback:"+name, s.Pos(), bad == nil,
-				"after moving the synced-to stamp backwards a success return is reachable without rolling the transaction store back to the same point")
-			// same transaction: both namespace arguments come from ReadWriteBucket calls on the same tx value
-			for _, rb := range rbs {
-				t1, t2 := txOfBucket(s.Call.Args[1]), txOfBucket(rb.Call.Args[1])
-				c.Check("C15-R1", "same-database-transaction:"+name, rb.Pos(), t1 != nil && t1 == t2, "stamp write and store rollback do not use buckets of the same database transaction")
-				// heights: rollback = stamp height + 1
-				stamp := stampArgAlloc(s.Call.Args[2])
-				okH, detail := heightsCoupled(p, fn, stamp, rb.Call.Args[2])
-				c.Check("C15-R1", "rollback-height-is-stamp-height-plus-1:"+name, rb.Pos(), okH, detail)
-			}
-		}
-	}
-	c.Floor("C15-R1", "coupled stamp+rollback sites", nCoupled, 2)
+	checkCoupledRollback(c, "C15-R1")
 
 	// ---------- R2 stamp completeness at every SetSyncedTo site ----------
 	nSites := 0
@@ -505,6 +466,21 @@ func heightsCoupled(p *Program, fn *ssa.Function, stamp ssa.Value, rbArg ssa.Val
 			}
 		}
 	}
+	// the rollback argument reads the stamp's own Height: only "+1" is right (handled above)
+	readsStamp := false
+	{
+		sl := &Slicer{P: p, ThroughBinOp: true}
+		for _, o := range sl.Origins(rbArg) {
+			if u, ok := o.(*ssa.UnOp); ok {
+				if fa, ok := u.X.(*ssa.FieldAddr); ok && sameVar(fa.X, stamp) {
+					readsStamp = true
+				}
+			}
+		}
+	}
+	if readsStamp {
+		return false, "the store rollback height (" + rl.String() + ") is read from the new tip stamp itself without adding 1: the block AT the new tip (still on the best chain) is rolled back too"
+	}
 	// case 2: stamp.Height was stored from an expression E and rollback arg == E + 1
 	for _, f := range Closures(outermost(fn)) {
 		for _, st := range storesToFieldOwner(f, "BlockStamp", "Height") {
@@ -536,3 +512,57 @@ func sameVar(a, b ssa.Value) bool {
 }
 
 var _ = strings.Contains
+
+// checkCoupledRollback: tip stamp and store rollback move together (shared by C15-R1 and C02-R4).
+func checkCoupledRollback(c *Ctx, rule string) {
+	p := c.P
+	setSynced := p.Func("waddrmgr", "Manager", "SetSyncedTo")
+	rollback := p.Func("wtxmgr", "Store", "Rollback")
+	if setSynced == nil || rollback == nil {
+		c.Unresolved(rule, "waddrmgr.Manager.SetSyncedTo / wtxmgr.Store.Rollback")
+		return
+	}
+	isSet := func(ins ssa.Instruction) bool { return p.isCallTo(ins, setSynced) }
+	isRb := func(ins ssa.Instruction) bool { return p.isCallTo(ins, rollback) }
+	// ---------- R1 coupled rollback ----------
+	nCoupled := 0
+	for _, fn := range p.FuncsIn("wallet") {
+		var sets, rbs []*ssa.Call
+		for _, ci := range callsOf(fn) {
+			if call, ok := ci.(*ssa.Call); ok {
+				if isSet(call) {
+					sets = append(sets, call)
+				}
+				if isRb(call) {
+					rbs = append(rbs, call)
+				}
+			}
+		}
+		if len(rbs) == 0 {
+			continue
+		}
+		name := fnName(fn)
+		c.Check(rule, "rollback-coupled-with-stamp:"+name, rbs[0].Pos(), len(sets) > 0,
+			"the transaction store is rolled back in a function that does not move the address manager's synced-to stamp in the same database transaction")
+		if len(sets) == 0 {
+			continue
+		}
+		nCoupled++
+		for _, s := range sets {
+			bad := p.mustPassToSuccess(fn, s, isRb, nil)
+			c.Check(rule, "stamp-write-followed-by-rollback:"+name, s.Pos(), bad == nil,
+				"after moving the synced-to stamp backwards a success return is reachable without rolling the transaction store back to the same point")
+			// same transaction: both namespace arguments come from ReadWriteBucket calls on the same tx value
+			for _, rb := range rbs {
+				t1, t2 := txOfBucket(s.Call.Args[1]), txOfBucket(rb.Call.Args[1])
+				c.Check(rule, "same-database-transaction:"+name, rb.Pos(), t1 != nil && t1 == t2, "stamp write and store rollback do not use buckets of the same database transaction")
+				// heights: rollback = stamp height + 1
+				stamp := stampArgAlloc(s.Call.Args[2])
+				okH, detail := heightsCoupled(p, fn, stamp, rb.Call.Args[2])
+				c.Check(rule, "rollback-height-is-stamp-height-plus-1:"+name, rb.Pos(), okH, detail)
+			}
+		}
+	}
+	c.Floor(rule, "coupled stamp+rollback sites", nCoupled, 2)
+
+}
